@@ -543,6 +543,10 @@ Definition markB (x : xworld) : nat := (inflight (h1 x) + xout (beg2 x) (h2 x))%
 Definition ret1 (x : xworld) : option ident :=
   match short1 x with Some id => Some id | None => returned (h1 x) end.
 
+(* what B's Connect(A) returned *)
+Definition ret2 (x : xworld) : option ident :=
+  match short2 x with Some id => Some id | None => returned (h2 x) end.
+
 (* one step of a dialling Connect that has begun (as [mstep_b]) *)
 Definition dial_step (c : cfg) (h : world) (oreg : option ident) : world * option ident :=
   match ipc h, oreg with
@@ -618,3 +622,119 @@ Definition x_hs : list xwho :=
 Definition x_full (n : nat) : list xwho :=
   x_hs ++ repeat XO n ++ map XW (seq 0 n) ++ [XD2; XD2; XD2] ++ repeat XR1 3 ++ repeat XR2 4 ++
   flat_map (fun k => [XW k; XW k]) (seq 0 n).
+
+(* ---- cross dial: who can take a step, final states, fair schedules --------------------------------- *)
+(* A dialling Connect is blocked only in its two reads (nothing to read and the handler has not
+   reset the stream); after it has returned it takes no further step. *)
+Definition ican (h : world) : bool :=
+  match ipc h with
+  | IReadResp | IReadReq =>
+      match nth_error (r2i h) (i_rd h) with Some _ => true | None => r_closed h end
+  | IOpen _ | IFailed => false
+  | _ => true
+  end.
+Definition dcan (beg : bool) (short : option ident) (h : world) : bool :=
+  match short with
+  | Some _ => false
+  | None => if beg then ican h else true
+  end.
+(* a handler exists once the dialler has opened the handshake stream; it is blocked only in its
+   two reads (nothing to read and the dialler has not given up) *)
+Definition rcan (beg : bool) (h : world) : bool :=
+  beg &&
+  match rpc h with
+  | RReadReq | RReadFinal _ =>
+      match nth_error (i2r h) (r_rd h) with Some _ => true | None => i_closed h end
+  | RDone => false
+  | _ => true
+  end.
+Definition wcan (x : xworld) (s : wstate) : bool :=
+  match s with
+  | WNew | WLook2 => true
+  | WWait => Nat.eqb (markB x) 0
+  | _ => false
+  end.
+(* [XO] is the application on node A: it may open another stream whenever Connect has succeeded *)
+Definition xcan (x : xworld) (e : xwho) : bool :=
+  match e with
+  | XD1 => dcan (beg1 x) (short1 x) (h1 x)
+  | XD2 => dcan (beg2 x) (short2 x) (h2 x)
+  | XR1 => rcan (beg1 x) (h1 x)
+  | XR2 => rcan (beg2 x) (h2 x)
+  | XO => match ret1 x with Some _ => true | None => false end
+  | XW k => match nth_error (sA x) k with Some s => wcan x s | None => false end
+  end.
+
+(* the base worlds keep a wrapper list of their own ([wr]) that the cross world does not use
+   (the streams are in [sA]); a step of a returned Connect appends to it.  Equality of cross
+   worlds is taken up to these two lists. *)
+Definition xerase (x : xworld) : xworld :=
+  {| h1 := set_wr [] (h1 x); h2 := set_wr [] (h2 x); beg1 := beg1 x; beg2 := beg2 x;
+     oreg1 := oreg1 x; oreg2 := oreg2 x; short1 := short1 x; short2 := short2 x; sA := sA x |}.
+
+(* Connect has returned: through the shortcut, with success after its own handshake, or with an error *)
+Definition conn_returned (beg : bool) (short : option ident) (h : world) : Prop :=
+  short <> None \/ (beg = true /\ (ipc h = IFailed \/ exists id, ipc h = IOpen id)).
+(* the handler of that handshake has returned (or was never started: shortcut) *)
+Definition handler_returned (beg : bool) (short : option ident) (h : world) : Prop :=
+  (beg = false /\ short <> None) \/ (beg = true /\ rpc h = RDone).
+Definition xfinal (x : xworld) : Prop :=
+  conn_returned (beg1 x) (short1 x) (h1 x) /\ conn_returned (beg2 x) (short2 x) (h2 x) /\
+  handler_returned (beg1 x) (short1 x) (h1 x) /\ handler_returned (beg2 x) (short2 x) (h2 x).
+Definition wfinal (s : wstate) : bool :=
+  match s with WHandled _ | WUnknown | WTorn => true | _ => false end.
+
+(* a round: a stretch of the schedule in which each of the two Connects and the two handlers is
+   scheduled at least once (anything else may be scheduled in between, any number of times) *)
+Definition xround (seg : list xwho) : Prop := In XD1 seg /\ In XD2 seg /\ In XR1 seg /\ In XR2 seg.
+(* the schedule starts with n rounds; what follows is arbitrary *)
+Inductive xfair : nat -> list xwho -> Prop :=
+| xfair_0 : forall s, xfair 0 s
+| xfair_S : forall n seg rest, xround seg -> xfair n rest -> xfair (S n) (seg ++ rest).
+(* how often the wrapper of the k-th stream is scheduled in t *)
+Definition wsteps (k : nat) (t : list xwho) : nat :=
+  length (filter (fun e => match e with XW j => Nat.eqb j k | _ => false end) t).
+(* rounds that suffice for both handshakes whatever the interleaving (see the proof: a step
+   count of the four actors) *)
+Definition x_rounds : nat := 40.
+
+(* ---- further schedules of the cross dial that the driver realises with its gates -------------------- *)
+(* a = the node whose streams are tracked (the opener), b = the node that answers them *)
+Definition xmirror (e : xwho) : xwho :=
+  match e with XD1 => XD2 | XD2 => XD1 | XR1 => XR2 | XR2 => XR1 | e => e end.
+(* b dials alone and both sides of that handshake run to their end *)
+Definition x_hs2_full : list xwho :=
+  [XD2; XD2] ++ repeat XR2 5 ++ repeat XD2 5 ++ repeat XR2 4 ++ [XD2; XD2].
+(* b dials alone; a's handler is held before it verifies the final message; b's Connect returns *)
+Definition x_hs2_held : list xwho :=
+  [XD2; XD2] ++ repeat XR2 5 ++ repeat XD2 5 ++ [XR2] ++ [XD2; XD2].
+(* both dial at once, both handlers are held before they verify the final message, both Connects
+   return (each after its own addPeer) *)
+Definition x_hs_both_held : list xwho :=
+  [XD1; XD2; XD1; XD2] ++ repeat XR1 5 ++ repeat XR2 5 ++ repeat XD1 7 ++ repeat XD2 7 ++ [XR1; XR2].
+(* schedule classes 5 .. 9 of the correspondence check:
+   5  b connects first, completely; then a connects: shortcut        (tracked streams: a's)
+   6  a connects first, completely; then b connects: shortcut
+   7  b connects first, a's handler held; then a connects (it dials), b's handler held
+   8  a connects first, b's handler held; then b connects (it dials), a's handler held
+   9  both connect at once, both handlers held
+   10 b's Connect is held inside its own handshake (in verifyResp, before it reads a's request);
+      a connects meanwhile (it dials), b's handler held; a's streams find b with nothing
+      registered and two handshakes on record: they wait; then everything is released *)
+Definition x_hs2_stuck : list xwho := [XD2; XD2] ++ repeat XR2 5 ++ [XD2].
+Definition x_pre (k : N) : list xwho :=
+  if k =? 5 then x_hs2_full ++ [XD1]
+  else if k =? 6 then map xmirror (x_hs2_full ++ [XD1])
+  else if k =? 7 then x_hs2_held ++ map xmirror x_hs2_held
+  else if k =? 8 then map xmirror x_hs2_held ++ x_hs2_held
+  else if k =? 10 then x_hs2_stuck ++ map xmirror x_hs2_held
+  else x_hs_both_held.
+Definition x_release (k : N) : list xwho :=
+  if (k =? 5) || (k =? 6) then []
+  else if k =? 10 then repeat XD2 6 ++ repeat XR2 4 ++ repeat XR1 3
+  else repeat XR1 3 ++ repeat XR2 3.
+(* up to the moment the driver looks at the streams for the first time (handlers still held) *)
+Definition x_sched_gate (k : N) (n : nat) : list xwho :=
+  x_pre k ++ repeat XO n ++ map XW (seq 0 n).
+Definition x_sched_end (k : N) (n : nat) : list xwho :=
+  x_sched_gate k n ++ x_release k ++ flat_map (fun j => [XW j; XW j]) (seq 0 n).
